@@ -33,6 +33,8 @@ ND = "src/scinumtools/dip/nodes/"
 
 
 def r1_parent_stack(ctx):
+    from . import C17 as _C17
+    _C17.deep_copy_clause(ctx, 'src/scinumtools/dip/environment.py', 'Environment.copy', 'each parse starts from its own parent stack and node list: the working environment is a deep copy (shared with C17.R2)')
     fn = ctx.fn(HIE, "HierarchyList.register")
     loops = [n for n in ast.walk(fn) if isinstance(n, (ast.While, ast.If)) and "self.parents[-1].indent" in norm(n.test)]
     if len(loops) != 1:
@@ -362,6 +364,8 @@ class BoolCast(Handler):
 def r6_scalar_literals(ctx):
     _literal_fields(ctx)
     _raw_empty_table(ctx)
+    _text_cut_as_written(ctx)
+    _blank_line_cells(ctx)
     _value_pattern(ctx)
     fn = ctx.fn(NB, "BaseNode.cast_value")
     boolif = [n for n in ast.walk(fn) if isinstance(n, ast.If) and norm(n.test) == "self.keyword == 'bool'"]
@@ -417,6 +421,56 @@ def _literal_fields(ctx):
     else:
         stores = [norm(st.value) for st in ast.walk(fn) if isinstance(st, ast.Assign) and any(isinstance(t, ast.Subscript) and norm(t.slice) == "'value_raw'" for t in st.targets)]
         ctx.form(bool(stores), NB, "BaseNode.__init__", what, detail=stores)
+
+
+def _text_cut_as_written(ctx):
+    """add_string / add_file cut the text into lines at newlines and drop whole blank lines at both ends; nothing is
+    removed from the text itself.  A strip() of the whole text before the cut also removes the indentation of the first
+    line and with it the line's place in the hierarchy."""
+    n = 0
+    for q in ("DIP.add_string", "DIP.add_file"):
+        fn = ctx.fn(DIP, q)
+        what = "the source text is cut into lines as written (no whitespace is stripped from the text as a whole)"
+        cuts = [c for c in ast.walk(fn) if isinstance(c, ast.Call) and isinstance(c.func, ast.Attribute) and c.func.attr in ("split", "splitlines")
+                and (c.func.attr == "splitlines" or (len(c.args) == 1 and norm(c.args[0]) in ("Sign.NEWLINE", "'\\n'")))]
+        if not cuts:
+            ctx.form(False, DIP, q, what, detail="no split at newlines found")
+            continue
+        for c in cuts:
+            n += 1
+            stripped = [norm(x) for x in ast.walk(c.func.value) if isinstance(x, ast.Call) and isinstance(x.func, ast.Attribute) and x.func.attr in ("strip", "lstrip")
+                        and not x.args]
+            if stripped:
+                ctx.violated(DIP, q, what, detail=stripped[0][:100], expected="only whole blank lines at both ends are dropped; the first line keeps its indentation")
+            else:
+                ctx.holds(DIP, q, what, detail=norm(c)[:80])
+    ctx.floor("text cuts", n, 2, file=DIP)
+
+
+def _blank_line_cells(ctx):
+    """A line made of blanks is a blank line: the test that ends a table header gives the same verdict for '' and for
+    '   ' (and another one for a header line)."""
+    from .common import concrete_truth
+    TB = ND + "node_table.py"
+    fn = ctx.fn(TB, "TableNode.parse")
+    what = "a line of blanks ends the table header exactly as an empty line does"
+    loops = [w for w in ast.walk(fn) if isinstance(w, ast.While) and any(isinstance(a, ast.Assign) and "lines.pop(0)" in norm(a.value) for a in w.body)]
+    if not loops:
+        ctx.form(False, TB, "TableNode.parse", what, detail="header loop not found")
+        return
+    w = loops[0]
+    var = next(norm(a.targets[0]) for a in w.body if isinstance(a, ast.Assign) and "lines.pop(0)" in norm(a.value))
+    brk = [i for i in w.body if isinstance(i, ast.If) and any(isinstance(b, ast.Break) for b in i.body)]
+    if len(brk) != 1:
+        ctx.form(False, TB, "TableNode.parse", what, detail="header end test not found")
+        return
+    cells = {repr(v): concrete_truth(brk[0].test, {var: v}) for v in ("", "   ", "a int")}
+    if None in cells.values() or cells["''"] is not True or cells["'a int'"] is not False:
+        ctx.form(False, TB, "TableNode.parse", what, detail={norm(brk[0].test): cells})
+    elif cells["'   '"] is True:
+        ctx.holds(TB, "TableNode.parse", what, detail=norm(brk[0].test))
+    else:
+        ctx.violated(TB, "TableNode.parse", what, detail={norm(brk[0].test): cells}, expected=f"{var}.strip() == ''")
 
 
 def _raw_empty_table(ctx):
